@@ -100,6 +100,10 @@ func ReadBodyWithStreaming(zr network.Reader, contentLength, maxBodySize int, ds
 		b, err = appendBodyFixedSize(zr, dst, readN)
 	} else {
 		b, err = readBodyIdentity(zr, readN, dst)
+		if contentLength >= 0 && len(b) > contentLength {
+			// readBodyIdentity takes whatever is buffered: never hand the body stream more than the body
+			b = b[:contentLength]
+		}
 	}
 
 	if err != nil {
